@@ -115,6 +115,8 @@ def evaluate(seed, checks):
         wt = "/tmp/se_%s" % seed
         sh("git -C %s worktree remove --force %s" % (REPO, wt))
         sh("git -C %s worktree add --detach %s HEAD" % (REPO, wt))
+        if os.path.exists(os.path.join(REPO, "Cargo.lock")):
+            shutil.copy(os.path.join(REPO, "Cargo.lock"), os.path.join(wt, "Cargo.lock"))
     rc, out = sh("git -C %s apply %s" % (wt, os.path.join(d, "patch.diff")))
     if rc != 0:
         print("patch does not apply:", out)
